@@ -82,6 +82,8 @@ pub struct Preset {
     pub clock_fault_boost: u64,
     pub corrupt_channel_boost: u64,
     pub bad_argument_pm: u64,
+    /// per mille of runs that are long (400..2400 events); raised by the thorough tier
+    pub long_pm: u64,
 }
 
 pub fn preset_for(prop: &str) -> Preset {
@@ -103,6 +105,7 @@ pub fn preset_for(prop: &str) -> Preset {
         clock_fault_boost: 1,
         corrupt_channel_boost: 1,
         bad_argument_pm: 100,
+        long_pm: 2,
     };
     match prop {
         "C07" => Preset { name: "C07", w_cc14_group: 50, w_raw_cc14: 25, w_pn_group: 5, w_sentence: 5, w_raw_pn: 5, bad_argument_pm: 150, ..base },
@@ -217,7 +220,13 @@ pub fn draw_cfg(r: &mut Rng, p: &Preset) -> Cfg {
     }
     all.truncate(nch);
     let flat = r.below(1000) < p.flat_pm;
-    let len = if r.chance(3, 4) { 3 + r.below(28) as usize } else { 30 + r.below(370) as usize };
+    let len = if r.below(1000) < p.long_pm {
+        400 + r.below(2000) as usize
+    } else if r.chance(3, 4) {
+        3 + r.below(28) as usize
+    } else {
+        30 + r.below(370) as usize
+    };
     let value_mode = *r.pick(&[ValueMode::Unique, ValueMode::Random, ValueMode::Boundary, ValueMode::Echo]);
     let fault_free = r.chance(1, 3);
     let mut rate = [0u64; N_FAULTS];
